@@ -770,6 +770,26 @@ class Engine:
             flow_updates, deletions, view_expire
         ) = self.state.apply_update(update, state)
 
+        # The store deletes while it goes along (a ``_move`` empties its
+        # source before a ``_generate`` of the same update may fill the
+        # key again), so the deleted paths are forgotten first and only
+        # what the hierarchy still holds is registered afterwards.
+        for deletion in deletions:
+            self._delete_path(deletion)
+        if deletions:
+            process_updates = [
+                (path, process) for path, process in process_updates
+                if self._in_hierarchy(path)]
+            step_updates = [
+                (path, step) for path, step in step_updates
+                if self._in_hierarchy(path)]
+            flow_updates = [
+                (path, flow) for path, flow in flow_updates
+                if self._in_hierarchy(path)]
+            topology_updates = [
+                (path, topology) for path, topology in topology_updates
+                if self._in_hierarchy(path)]
+
         process_updates = [
             (path, self._parallelize_processes(process))
             for path, process in process_updates
@@ -821,11 +841,15 @@ class Engine:
                 delete_in(self.processes, path)
                 self._add_step_path(step, path, dependencies)
 
-        if deletions:
-            for deletion in deletions:
-                self._delete_path(deletion)
-
         return view_expire
+
+    def _in_hierarchy(self, path: HierarchyPath) -> bool:
+        node = self.state
+        for key in path:
+            if not isinstance(node.inner, dict) or key not in node.inner:
+                return False
+            node = node.inner[key]
+        return True
 
     def _delete_path(
             self,
